@@ -142,6 +142,10 @@ impl Drop for Inotify {
 
 #[allow(clippy::too_many_arguments)]
 fn run(kvariant: &[Op], init_flags: u8, prefix: &[usize], http_every_step: bool, keys_dir: &str) -> RunOut {
+    // bit 7 of the configuration's flags: the secure channel is already latched (the key keeper reported a state
+    // other than disabled/unknown) while this instance's subsystems are still reporting
+    let channel_latched = init_flags & 0x80 != 0;
+    let init_flags = init_flags & 7;
     let rt = tokio::runtime::Builder::new_current_thread().enable_all().build().unwrap();
     let _ = std::fs::remove_file(format!("{keys_dir}/status.tag"));
     let _ = std::fs::remove_file(format!("{keys_dir}/status.tag.tmp"));
@@ -168,6 +172,9 @@ fn run(kvariant: &[Op], init_flags: u8, prefix: &[usize], http_every_step: bool,
         drain().await;
         let _ = prov.reset_one_state(ProvisionFlags::ALL_READY).await;
         let _ = prov.set_provision_finished(false).await;
+        if channel_latched {
+            let _ = shared.get_key_keeper_shared_state().update_current_secure_channel_state("wireserver".to_string()).await;
+        }
         // non-initial start states
         if init_flags != 0 {
             let _ = prov.update_one_state(ProvisionFlags::from_bits_truncate(init_flags)).await;
@@ -362,6 +369,9 @@ fn main() {
         configs.push((1, init));
         configs.push((5, init));
     }
+    for k in [0usize, 1, 3, 5] {
+        configs.push((k, 0x80)); // nothing reported yet, secure channel already latched
+    }
     if let Ok(path) = std::env::var("VERIF_REPLAY") {
         let doc: Value = serde_json::from_str(&std::fs::read_to_string(path).unwrap()).unwrap();
         let c = &doc["case"];
@@ -387,7 +397,7 @@ fn main() {
         res.cov("exhaustive", !capped);
         res.cov("preemption_bound", bound as u64);
         res.cov("workers", n as u64);
-        res.cov("rule", format!("threads R=[redirector_ready], L=[listener_started], K in 6 op sequences over key_latched / key_latch_ready_state_reset / provision_timeup, from the empty readiness set and (K variants [reset, latched] and [latched, reset]) from {} non-initial readiness sets; every schedule with <= {bound} preemptions, one actor message per step; after every step: provision flags, finished tick and error text via the public getters; for schedules with <= 1 preemption also six real /provision HTTP queries (tick absent, 0, negative, far future, boundary before the step, first boundary); inotify on the tag directory", if thorough { 7 } else { 3 }));
+        res.cov("rule", format!("threads R=[redirector_ready], L=[listener_started], K in 6 op sequences over key_latched / key_latch_ready_state_reset / provision_timeup, from the empty readiness set and (K variants [reset, latched] and [latched, reset]) from {} non-initial readiness sets, and 4 K variants with the secure channel already latched (initial_flags bit 7); every schedule with <= {bound} preemptions, one actor message per step; after every step: provision flags, finished tick and error text via the public getters; for schedules with <= 1 preemption also six real /provision HTTP queries (tick absent, 0, negative, far future, boundary before the step, first boundary); inotify on the tag directory", if thorough { 7 } else { 3 }));
         std::process::exit(res.finish());
     }
     let (wi, wn) = me.unwrap();
